@@ -18,16 +18,17 @@ _C15_CORE = [R + f for f in (
 HARNESS = {
     "c15_ts": {"src": [H + "c15_ts.c",
                        T + "upipe_ts_decaps.c", T + "upipe_ts_pes_decaps.c", T + "upipe_ts_pes_encaps.c", T + "upipe_ts_encaps.c",
+                       T + "upipe_ts_pid_filter.c", T + "upipe_ts_split.c",
                        "@VERIF@/shim/stubs/upipe_ts_mux_str.c", E + "vmock_upump.c", E + "simfd.c"] + _C15_CORE},
 }
 
 
 def _c15_jobs(tier):
     q = tier == "quick"
-    shards = {"t1": 5, "t2": 3, "t3": 2, "t4": 6} if q else {"t1": 24, "t2": 8, "t3": 8, "t4": 24}
+    shards = {"t1": 6, "t2": 3, "t3": 2, "t4": 4, "t5": 1} if q else {"t1": 24, "t2": 8, "t3": 8, "t4": 23, "t5": 1}
     deadline = 50 if q else 800
     jobs = []
-    for mode in ("t1", "t2", "t3", "t4"):
+    for mode in ("t1", "t2", "t3", "t4", "t5"):
         n = shards[mode]
         for i in range(n):
             jobs.append(("c15_ts", ["--mode", mode, "--tier", tier, "--shard", "%d/%d" % (i, n), "--deadline", deadline]))
@@ -48,7 +49,7 @@ CHECK = {
                   "PTS+DTS, equal, same/next 90 kHz tick, 2^33 wrap) x stream ids e0/c0/bd/bf x minimum header x 1-2 segments x random flag: its octets parsed by the "
                   "reference PES parser (flags, length, marker bits, prefix nibbles, stuffing) and fed to pes_decaps directly and as 184-octet chunks; and 1070 "
                   "reference-built PES packets (11 stream ids, PTS/DTS flags, stuffing, alignment, payload 0/1/20, bounded/unbounded, 4 timestamp pairs) cut at "
-                  "every position into 1..3 chunks followed by a second packet: bytes, start/end markers, DTS and PTS-DTS in 27 MHz, clock_ts / sync events. "
+                  "every position into 1..3 (thorough: video 1..4) chunks followed by a second packet: bytes, start/end markers, DTS and PTS-DTS in 27 MHz, clock_ts / sync events. "
                   "T3: the harness acts as the mux on ts_encaps (status events, splice, eos) for 1-2 access units of 10 (thorough 22) sizes around every packet "
                   "boundary x 4 stream ids x PES alignment on/off x PCR interval off / every ~3rd packet / once x random / discontinuity flags x feeding order: "
                   "every packet is 188 octets, conformant for the reference parser, PID as configured, continuity counter +1 per payload packet and unchanged "
@@ -57,18 +58,23 @@ CHECK = {
                   "T4: every T1 single-packet variant (between two good packets and as a corrupted duplicate) and the reference PES packets with every "
                   "header / adaptation-field / PES-header octet set to 00, ff, complemented and every single bit flipped, and truncated at every length, in several "
                   "cuttings: no sanitizer report (input buffers are exact-size heap blocks, pools of depth 0, no prepend/append), every output is a slice of the "
-                  "input, the next unit start resynchronises pes_decaps, fixture teardown clean. Bounded, not a proof.",
+                  "input, the next unit start resynchronises pes_decaps, fixture teardown clean. "
+                  "T5: one packet of every PID 0..8191 through upipe_ts_pid_filter (6 PID sets, add and add+delete) and upipe_ts_split (subpipes on 0-3 PIDs, two "
+                  "on the same PID), packets in 1 or 2 segments cut at 1..4: every output receives exactly the packets of its PID, unchanged, in order. "
+                  "Bounded, not a proof.",
     "level_note": "Trusted: the reference TS/PES coders and the continuity automaton in the harness (about 300 lines), clang/ASan, the bitstream shim only as the "
                   "accessor layer the Upipe code is compiled against (a shim error shows up as a disagreement with the reference coders). Outside the bound: "
                   "sequences longer than the depth, OPCR / splice / private / extension fields of the adaptation field, PES extension fields, PSI sections in "
-                  "ts_encaps, pes_min_duration aggregation, more than two access units, upipe_ts_split / upipe_ts_pid_filter. "
+                  "ts_encaps, pes_min_duration aggregation, more than two access units, changing the subpipes of ts_split while packets flow. "
                   "Undefined input (a third copy of a packet) ends the judged part of a sequence (counted in illformed_tail_not_judged).",
     "jobs": {"quick": _c15_jobs("quick"), "thorough": _c15_jobs("thorough")},
     "rule": "state = one input case (packet sequence / PES packet / access-unit pair with its configuration, cutting and mutation); transition = one buffer "
             "input or one splice on the real pipes; non-trivial = executions in which the pipes produced at least one output buffer / TS packet",
     "bounds": {"quick": "T1 depth 1-2 with all 88 packet variants (all cuttings at depth 1), depth 3-4 over a 10-variant alphabet; T2 12 sizes, PES packets in 1-3 chunks; "
-                        "T3 10 sizes; T4 cuttings {none, 5} for TS and up to the header end for PES (video, private_stream_2, padding ids)",
-               "thorough": "T1 depth 5; T2 25 sizes; T3 22 sizes; T4 TS cuttings {none,1,4,5,6,12}, all stream ids and all two-chunk cuttings for PES"},
+                        "T3 10 sizes (configured minimum PES header on single access units); T4 cuttings {none, 5} for TS and up to the header end for PES "
+                        "(video, private_stream_2, padding ids); T5 all 8192 PIDs",
+               "thorough": "T1 depth 5; T2 25 sizes, bounded video PES packets also in 4 chunks; T3 22 sizes, minimum header everywhere; T4 TS cuttings {none,1,4,5,6,12}, "
+                           "all stream ids and all two-chunk cuttings for PES; T5 as quick"},
     "assumptions": [
         "harness compiled with clang -O1 + AddressSanitizer from /repo's working tree; library asserts enabled",
         "jobs are shards (case number modulo n) of one deterministic enumeration; no deduplication is needed (every case is distinct by construction)",
